@@ -520,7 +520,7 @@ def specs(prop, tier):
         for kind in ("alloc", "capacity", "coverage"):
             out.append(("overwrite[%s;Y=2000.5]" % kind, c09_overwrite, dict(kind=kind, Y=2000.5)))
             out.append(("overwrite[%s;Y=2000.6;first point after start]" % kind, c09_overwrite, dict(kind=kind, Y=2000.6, first_point_after_start=True)))
-        for par in ("beta", "foi"):
+        for par in ("beta", "foi", "foi2", "base"):
             for method in ("linear", "previous"):
                 for Y in ((2000.5,) if q else (2000.5, 2000.6)):
                     out.append(("scenario[%s;%s;Y=%g]" % (par, method, Y), c09_scenario, dict(par=par, Y=Y, method=method)))
